@@ -1,4 +1,4 @@
-"""E11 — which bits of an input buffer can influence a function's result? (forward bit-mask taint)
+"""E11 — which bits of an input buffer can influence a function's results? (forward bit-mask taint)
 
 One *source bit* (byte B, bit k of the buffer a pointer parameter points to) is tracked through the
 -O2 IR of a unit (no unrolling / vectorisation / inlining, so helpers stay calls). Every SSA value
@@ -13,13 +13,20 @@ carries the mask of its bits the source bit may influence:
     add / sub / mul                     every bit from the lowest influenced bit upwards (carries)
     zext / sext / trunc                 widened / truncated
     icmp, select, phi                   1 / union (all bits when the condition is influenced)
-    direct call passing the pointer on  the callee is analysed for the same source bit (memoised)
+    direct call passing the pointer on  the callee is analysed for the same source bit (memoised;
+                                        callees in other units through the resolver)
     anything else                       all bits
 
-Sinks: the returned value, stores, conditional branches and calls taking an influenced value. The
-result is a may-analysis: "bit cannot influence the result" is definite, "may influence" is an
-over-approximation (used only for rules of the form *must be able to* influence, where absence is
-the violation)."""
+Local arrays (allocas) are modelled flow-sensitively, one mask per byte: a store / memcpy / memset at a
+constant offset is a strong update (so `t[0] &= 248` really clears the three low bits of the copy),
+variable offsets are weak updates / unions, states are joined at control-flow merges and iterated to a
+fixpoint. Handing a local array that holds an influenced byte to a callee is a sink (and makes every
+array handed to that call influenced).
+
+Sinks: the returned value, stores to non-local memory, conditional branches and calls taking an
+influenced value or array. The result is a may-analysis: "the bit cannot influence anything" is
+definite; "may influence" is an over-approximation (used only for rules of the form *must be able
+to* influence, where absence is the violation)."""
 from . import e9
 
 
@@ -37,7 +44,7 @@ def load_range(f, ins, pname):
         return (None, None)
     pa = e9.parse_addr(sc)
     if pa is None:
-        return (None, None) if ("%" + pname) in sc else None
+        return (None, None) if ("%" + pname) in sc.replace("%" + pname + ".", "") else None
     st, stride, loop = pa
     if st.get(pname, 0) != 1:
         return None if not st.get(pname) else (None, None)
@@ -61,9 +68,35 @@ def load_range(f, ins, pname):
 
 
 class BitFlow:
-    def __init__(self, unit):
-        self.unit = unit            # e9.O2Unit
+    def __init__(self, unit, resolver=None):
+        """unit: e9.O2Unit; resolver(name) -> BitFlow of the unit defining `name` (or None)"""
+        self.unit = unit
+        self.resolver = resolver
         self.memo = {}
+
+    def _lookup(self, name):
+        if name in self.unit.fns:
+            return self
+        if self.resolver is not None:
+            other = self.resolver(name)
+            if other is not None and name in other.unit.fns:
+                return other
+        return None
+
+    def analyse_int(self, fname, pidx, bit):
+        """same, but the source is bit `bit` of the *integer* parameter pidx itself"""
+        return self.analyse(fname, pidx, None, bit)
+
+    def analyse_value(self, fname, vid, bit):
+        """same, but the source is bit `bit` of the SSA value `vid` of the function itself"""
+        key = (fname, ("v", vid), None, bit)
+        if key not in self.memo:
+            f = self.unit.fns[fname]
+            run = _Run(self, f, 0 if f["params"] else -1, None, bit, 0)
+            run.pidx = -1
+            run.src_vid = vid
+            self.memo[key] = run.run()
+        return self.memo[key]
 
     def analyse(self, fname, pidx, byte, bit, depth=0):
         """-> dict(ret=mask of the returned value, stores=[inst ids], branches=[inst ids], calls=[inst ids])"""
@@ -76,152 +109,321 @@ class BitFlow:
             r = {"ret": -1, "stores": [], "branches": [], "calls": [-1], "loads": 0}
             self.memo[key] = r
             return r
-        insts = f["insts"]
-        pname = f["params"][pidx]["name"]
-        mask = {}
-        ptr = {}        # SSA id -> constant byte offset from the parameter (pointer values derived from it)
-        res = {"ret": 0, "stores": [], "branches": [], "calls": [], "loads": 0}
+        r = _Run(self, f, pidx, byte, bit, depth).run()
+        self.memo[key] = r
+        return r
 
-        def m(o):
-            if o[0] == "v":
-                return mask.get(o[1], 0)
-            return 0
 
-        def full(ty):
-            b = _bits(ty)
-            return (1 << b) - 1 if b else -1
+class _Run:
+    def __init__(self, bf, f, pidx, byte, bit, depth):
+        self.bf, self.f, self.pidx, self.byte, self.bit, self.depth = bf, f, pidx, byte, bit, depth
+        self.insts = f["insts"]
+        self.src_vid = None
+        self.pname = f["params"][pidx]["name"] if 0 <= pidx < len(f["params"]) else ""
+        self.mask = {}
+        self.base = {}      # SSA id -> ("p", off) pointer into the source buffer | ("al", alloca id, off or None)
+        self.allocas = {i: ins.get("size", 0) for i, ins in enumerate(self.insts) if ins["op"] == "alloca"}
+        for i in self.allocas:
+            self.base[i] = ("al", i, 0)
 
-        def poff(o):
-            if o[0] == "a":
-                return 0 if o[1] == pidx else None
-            if o[0] == "v":
-                return ptr.get(o[1])
-            return None
+    # -- helpers --------------------------------------------------------------------------------
+    def m(self, o):
+        if o[0] == "v":
+            return self.mask.get(o[1], 0)
+        if o[0] == "a" and self.byte is None and o[1] == self.pidx:
+            return 1 << self.bit            # integer-parameter source
+        return 0
 
-        changed = True
-        rounds = 0
-        while changed and rounds < 40:
+    @staticmethod
+    def full(ty):
+        b = _bits(ty)
+        return (1 << b) - 1 if b else -1
+
+    def ptr(self, o):
+        if o[0] == "a":
+            return ("p", 0) if o[1] == self.pidx and self.byte is not None else None
+        if o[0] == "v":
+            return self.base.get(o[1])
+        return None
+
+    def _derive(self, i, ins):
+        ops = ins.get("ops", [])
+        b = self.ptr(ops[0]) if ops else None
+        if b is None:
+            return
+        if ins["op"] == "bitcast":
+            self.base[i] = b
+            return
+        const = not ins.get("var") and ins.get("off") is not None
+        if b[0] == "p":
+            if const and b[1] is not None:
+                self.base[i] = ("p", b[1] + ins["off"])
+            else:
+                self.base[i] = ("p", None)
+        else:
+            self.base[i] = ("al", b[1], b[2] + ins["off"] if const and b[2] is not None else None)
+
+    # -- memory ---------------------------------------------------------------------------------
+    def _cells_any(self, st, a):
+        x = 0
+        for c in st[a]:
+            x |= c
+        return x
+
+    def _load_cells(self, st, a, off, size, ty):
+        if off is None or off < 0 or off + size > len(st[a]):
+            x = self._cells_any(st, a) & 0xff
+            v = 0
+            for k in range(max(size, 1)):
+                v |= x << (8 * k)
+            return v & self.full(ty) if _bits(ty) else (-1 if x else 0)
+        v = 0
+        for k in range(size):
+            v |= (st[a][off + k] & 0xff) << (8 * k)
+        return v if _bits(ty) else (-1 if v else 0)
+
+    def _store_cells(self, st, a, off, size, val):
+        if off is None or off < 0 or off + size > len(st[a]):
+            x = 0xff if val else 0
+            if val > 0 and size and size <= 8:
+                x = 0
+                for k in range(size):
+                    x |= (val >> (8 * k)) & 0xff
+            for k in range(len(st[a])):
+                st[a][k] |= x
+            return
+        for k in range(size):
+            st[a][off + k] = 0xff if val < 0 else (val >> (8 * k)) & 0xff
+
+    # -- main -----------------------------------------------------------------------------------
+    def run(self):
+        f, insts = self.f, self.insts
+        blocks = f["blocks"]
+        out = [None] * len(blocks)
+        res = None
+        for _round in range(60):
             changed = False
-            rounds += 1
             res = {"ret": 0, "stores": [], "branches": [], "calls": [], "loads": 0}
-            for i, ins in enumerate(insts):
-                op = ins["op"]
-                ty = ins.get("ty", "")
-                new = 0
-                ops = ins.get("ops", [])
-                if op == "getelementptr" or op == "bitcast":
-                    b = poff(ops[0]) if ops else None
-                    if b is not None:
-                        if op == "bitcast":
-                            ptr[i] = b
-                        elif not ins.get("var") and ins.get("off") is not None:
-                            ptr[i] = b + ins["off"]
+            for b, blk in enumerate(blocks):
+                if not blk.get("reach", 1):
                     continue
-                if op == "load":
-                    rg = load_range(f, ins, pname)
-                    if rg is None:
-                        # a load from somewhere else: influenced only if memory was (stores are sinks and reported)
-                        new = 0
-                    elif rg[0] is None:
-                        res["loads"] += 1
-                        new = full(ty)
-                    else:
-                        res["loads"] += 1
-                        lo, hi = rg
-                        if lo <= byte < hi:
-                            if hi - lo == ins["size"] and _bits(ty):
-                                new = 1 << (8 * (byte - lo) + bit)      # little-endian position inside the loaded value
-                            elif ins["size"] == 1 and _bits(ty):
-                                new = 1 << bit                          # a byte-wise scan that may read the source byte
-                            else:
-                                new = full(ty)
-                elif op in ("zext",):
-                    new = m(ops[0])
-                elif op == "sext":
-                    a = m(ops[0])
-                    sb = ins.get("srcbits", 0)
-                    new = a
-                    if sb and a >> (sb - 1) & 1:
-                        new |= full(ty) & ~((1 << sb) - 1)
-                elif op == "trunc":
-                    new = m(ops[0]) & full(ty)
-                elif op in ("and", "or", "xor"):
-                    a, b = ops
-                    if b[0] == "i" or a[0] == "i":
-                        c = b[1] if b[0] == "i" else a[1]
-                        x = m(a) | m(b)
-                        new = x & c if op == "and" else (x & ~c if op == "or" else x)
-                    else:
-                        new = m(a) | m(b)
-                    new &= full(ty)
-                elif op in ("shl", "lshr", "ashr"):
-                    a, b = ops
-                    if b[0] == "i" and m(b) == 0:
-                        k = b[1]
-                        if op == "shl":
-                            new = (m(a) << k) & full(ty)
-                        else:
-                            new = m(a) >> k
-                            if op == "ashr" and _bits(ty) and m(a) >> (_bits(ty) - 1) & 1:
-                                new |= full(ty) & ~((1 << max(_bits(ty) - k, 0)) - 1)
-                    elif m(a) or m(b):
-                        new = full(ty)
-                elif op in ("add", "sub", "mul"):
-                    x = m(ops[0]) | m(ops[1])
-                    if x:
-                        low = (x & -x).bit_length() - 1 if x > 0 else 0
-                        new = full(ty) & ~((1 << low) - 1)
-                elif op == "icmp":
-                    new = 1 if (m(ops[0]) or m(ops[1])) else 0
-                elif op == "select":
-                    c = ins.get("cond") or ops[0]
-                    vals = ops[-2:]
-                    new = m(vals[0]) | m(vals[1])
-                    if m(c):
-                        new = full(ty)
-                elif op == "phi":
-                    for o, _b in ins["inc"]:
-                        new |= m(o)
-                elif op == "call":
-                    cal = ins.get("callee")
-                    cname = cal[1] if cal and cal[0] == "g" else None
-                    tainted_val = any(m(o) for o in ops)
-                    passes = [(k, poff(o)) for k, o in enumerate(ops) if poff(o) is not None]
-                    if cname and cname.startswith("llvm.") and not tainted_val and not passes:
-                        new = 0
-                    elif tainted_val:
-                        new = full(ty) if ty != "void" else 0
-                        res["calls"].append(i)
-                    elif passes:
-                        sub_ret = 0
-                        for k, off in passes:
-                            if cname in self.unit.fns and off is not None and byte - off >= 0:
-                                r = self.analyse(cname, k, byte - off, bit, depth + 1)
-                                sub_ret |= r["ret"]
-                                if r["stores"] or r["calls"] or r["branches"]:
-                                    res["calls"].append(i)
-                            else:
-                                sub_ret = -1
-                                res["calls"].append(i)
-                        new = (sub_ret & full(ty)) if ty != "void" else 0
-                elif op == "store":
-                    if m(ops[0]):
-                        res["stores"].append(i)
-                    continue
-                elif op == "br" or op == "switch":
-                    c = ins.get("cond") or (ops[0] if op == "switch" and ops else None)
-                    if c is not None and m(c):
-                        res["branches"].append(i)
-                    continue
-                elif op == "ret":
-                    if ops:
-                        res["ret"] |= m(ops[0])
-                    continue
+                ins_states = [out[p] for p in blk.get("preds", []) if out[p] is not None]
+                if ins_states:
+                    st = {a: list(ins_states[0][a]) for a in self.allocas}
+                    for o in ins_states[1:]:
+                        for a in self.allocas:
+                            sa, oa = st[a], o[a]
+                            for k in range(len(sa)):
+                                sa[k] |= oa[k]
+                elif not blk.get("preds"):
+                    st = {a: [0] * n for a, n in self.allocas.items()}
                 else:
-                    if any(m(o) for o in ops if isinstance(o, list)):
-                        new = full(ty) if ty != "void" else 0
-                if new != mask.get(i, 0):
-                    mask[i] = new | mask.get(i, 0)
+                    continue            # no predecessor processed yet
+                for i in blk["insts"]:
+                    if self._step(i, insts[i], st, res):
+                        changed = True
+                if out[b] != st:
+                    out[b] = st
                     changed = True
-        self.memo[key] = res
+            if not changed:
+                break
         return res
+
+    def _step(self, i, ins, st, res):
+        op = ins["op"]
+        ty = ins.get("ty", "")
+        ops = ins.get("ops", [])
+        m, full = self.m, self.full
+        new = 0
+        if op in ("getelementptr", "bitcast"):
+            self._derive(i, ins)
+            return False
+        if op == "alloca":
+            return False
+        if op == "load":
+            b = self.ptr(ops[0])
+            if b is not None and b[0] == "al":
+                new = self._load_cells(st, b[1], b[2], ins.get("size", 0), ty)
+            else:
+                rg = load_range(self.f, ins, self.pname) if self.byte is not None else None
+                if rg is None and b is not None and b[0] == "p":
+                    rg = (None, None) if b[1] is None else (b[1], b[1] + ins["size"])
+                if rg is None:
+                    new = 0
+                elif rg[0] is None:
+                    res["loads"] += 1
+                    new = full(ty)
+                else:
+                    res["loads"] += 1
+                    lo, hi = rg
+                    if lo <= self.byte < hi:
+                        if hi - lo == ins["size"] and _bits(ty):
+                            new = 1 << (8 * (self.byte - lo) + self.bit)
+                        elif ins["size"] == 1 and _bits(ty):
+                            new = 1 << self.bit
+                        else:
+                            new = full(ty)
+        elif op == "zext":
+            new = m(ops[0])
+        elif op == "sext":
+            a = m(ops[0])
+            sb = ins.get("srcbits", 0)
+            new = a
+            if sb and a >> (sb - 1) & 1:
+                new |= full(ty) & ~((1 << sb) - 1)
+        elif op == "trunc":
+            new = m(ops[0]) & full(ty)
+        elif op in ("and", "or", "xor"):
+            a, b = ops
+            if b[0] == "i" or a[0] == "i":
+                c = b[1] if b[0] == "i" else a[1]
+                x = m(a) | m(b)
+                new = x & c if op == "and" else (x & ~c if op == "or" else x)
+            else:
+                new = m(a) | m(b)
+            new &= full(ty)
+        elif op in ("shl", "lshr", "ashr"):
+            a, b = ops
+            if b[0] == "i":
+                k = b[1]
+                if op == "shl":
+                    new = (m(a) << k) & full(ty)
+                else:
+                    new = m(a) >> k if m(a) >= 0 else -1
+                    if op == "ashr" and _bits(ty) and m(a) >> (_bits(ty) - 1) & 1:
+                        new |= full(ty) & ~((1 << max(_bits(ty) - k, 0)) - 1)
+            elif m(a) or m(b):
+                new = full(ty)
+        elif op in ("add", "sub", "mul"):
+            x = m(ops[0]) | m(ops[1])
+            if x:
+                low = (x & -x).bit_length() - 1 if x > 0 else 0
+                new = full(ty) & ~((1 << low) - 1)
+        elif op == "icmp":
+            new = 1 if (m(ops[0]) or m(ops[1])) else 0
+        elif op == "select":
+            c = ins.get("cond") or ops[0]
+            vals = ops[-2:]
+            new = m(vals[0]) | m(vals[1])
+            if m(c):
+                new = full(ty)
+        elif op == "phi":
+            for o, _b in ins["inc"]:
+                new |= m(o)
+                pb = self.ptr(o)
+                if pb is not None and i not in self.base:
+                    self.base[i] = (pb[0], None) if pb[0] == "p" else ("al", pb[1], None)
+        elif op == "call":
+            return self._call(i, ins, st, res)
+        elif op == "store":
+            b = self.ptr(ops[1])
+            if b is not None and b[0] == "al":
+                self._store_cells(st, b[1], b[2], ins.get("size", 0), m(ops[0]))
+            elif m(ops[0]):
+                res["stores"].append(i)
+            return False
+        elif op in ("br", "switch"):
+            c = ins.get("cond") or (ops[0] if op == "switch" and ops else None)
+            if c is not None and m(c):
+                res["branches"].append(i)
+            return False
+        elif op == "ret":
+            if ops:
+                res["ret"] |= m(ops[0])
+            return False
+        else:
+            if any(m(o) for o in ops if isinstance(o, list)):
+                new = full(ty) if ty != "void" else 0
+        if i == self.src_vid:
+            new |= 1 << self.bit
+        old = self.mask.get(i, 0)
+        if new | old != old:
+            self.mask[i] = new | old
+            return True
+        return False
+
+    def _call(self, i, ins, st, res):
+        ops = ins.get("ops", [])
+        ty = ins.get("ty", "")
+        cal = ins.get("callee")
+        cname = cal[1] if cal and cal[0] == "g" else None
+        m, full = self.m, self.full
+        if cname and (cname.startswith("llvm.lifetime") or cname.startswith("llvm.dbg") or cname.startswith("llvm.assume")):
+            return False
+        if cname and (cname.startswith("llvm.memcpy") or cname.startswith("llvm.memmove")):
+            d, s, n = self.ptr(ops[0]), self.ptr(ops[1]), ops[2]
+            nn = n[1] if n[0] == "i" else None
+            if d is not None and d[0] == "al":
+                a = d[1]
+                if s is not None and s[0] == "p":
+                    for k in range(len(st[a])):
+                        exact = d[2] is not None and nn is not None and s[1] is not None
+                        if exact:
+                            if d[2] <= k < d[2] + nn:
+                                st[a][k] = (1 << self.bit) if s[1] + (k - d[2]) == self.byte else 0
+                        else:
+                            st[a][k] |= 1 << self.bit
+                elif s is not None and s[0] == "al":
+                    src = st[s[1]]
+                    if d[2] is not None and s[2] is not None and nn is not None:
+                        for k in range(nn):
+                            if d[2] + k < len(st[a]) and s[2] + k < len(src):
+                                st[a][d[2] + k] = src[s[2] + k]
+                    else:
+                        x = self._cells_any(st, s[1]) & 0xff
+                        for k in range(len(st[a])):
+                            st[a][k] |= x
+                elif d[2] is not None and nn is not None:
+                    for k in range(nn):
+                        if d[2] + k < len(st[a]):
+                            st[a][d[2] + k] = 0       # copied from memory the source bit is not in
+            else:
+                tainted = (s is not None and s[0] == "p" and (s[1] is None or nn is None or s[1] <= self.byte < s[1] + nn)) or \
+                          (s is not None and s[0] == "al" and self._cells_any(st, s[1]))
+                if tainted:
+                    res["stores"].append(i)
+            return False
+        if cname and cname.startswith("llvm.memset"):
+            d, n = self.ptr(ops[0]), ops[2]
+            if d is not None and d[0] == "al" and d[2] is not None and n[0] == "i" and not m(ops[1]):
+                for k in range(n[1]):
+                    if d[2] + k < len(st[d[1]]):
+                        st[d[1]][d[2] + k] = 0
+            return False
+        tainted_val = any(m(o) for o in ops)
+        passes = [(k, self.ptr(o)) for k, o in enumerate(ops) if self.ptr(o) is not None]
+        src_pass = [(k, b[1]) for k, b in passes if b[0] == "p"]
+        al_pass = [b[1] for _k, b in passes if b[0] == "al"]
+        tainted_mem = any(self._cells_any(st, a) for a in al_pass)
+        new = 0
+        dirty = False
+        if cname and cname.startswith("llvm.") and not passes:
+            new = full(ty) if tainted_val and ty != "void" else 0
+        elif tainted_val or tainted_mem:
+            res["calls"].append(i)
+            new = full(ty) if ty != "void" else 0
+            dirty = True
+        elif src_pass:
+            sub_ret = 0
+            for k, off in src_pass:
+                tgt = self.bf._lookup(cname) if cname else None
+                if tgt is not None and off is not None and self.byte - off >= 0:
+                    r = tgt.analyse(cname, k, self.byte - off, self.bit, self.depth + 1)
+                    sub_ret |= r["ret"]
+                    if r["stores"] or r["calls"] or r["branches"]:
+                        res["calls"].append(i)
+                        dirty = True
+                else:
+                    sub_ret = -1
+                    res["calls"].append(i)
+                    dirty = True
+            new = (sub_ret & full(ty)) if ty != "void" else 0
+        if dirty:
+            for a in al_pass:
+                for k in range(len(st[a])):
+                    st[a][k] = 0xff
+        old = self.mask.get(i, 0)
+        if new | old != old:
+            self.mask[i] = new | old
+            return True
+        return False
